@@ -62,6 +62,73 @@ def main(x: Option[array[int, 2]] @owned) -> None:
 '''
 
 
+def upv_obligations(chk, tag=""):
+    """update_packed_value (tracing/unpacking.py): what a comptime caller holds after a call that
+    borrowed it.  Shared with C21 (calls to Guppy functions from comptime code must leave the
+    caller with the callee's updates, for copyable and non-copyable components alike)."""
+    e = mk_engine(chk)
+    cop, dro, used0 = z3.Bools("copyable droppable initially_used")
+    TY = ClassVal("Ty", builtin=True)
+
+    def setup(it):
+        state = SObj(ClassVal("TracingState", builtin=True), {"unused_undroppable_objs": {}, "node": "NODE"})
+        e.models["guppylang_internals.tracing.state:get_tracing_state"] = lambda it2, a, k: state
+        frame = SObj(ClassVal("frame", builtin=True), {"f_code": SObj(ClassVal("code", builtin=True), {"co_filename": "user.py"}), "f_lineno": 7})
+        e.models["guppylang_internals.tracing.util:get_calling_frame"] = lambda it2, a, k: frame
+        e.models["guppylang_internals.ipython_inspect:normalize_ipython_dummy_files"] = lambda it2, a, k: a[0]
+        e.ext_models["pathlib.Path"] = Builtin("Path", lambda s: SObj(ClassVal("Path", builtin=True), {"name": s}))
+        ty = SObj(TY, {"copyable": SBool(cop), "droppable": SBool(dro)})
+        GO = it.lookup_global(e.module(OBJ), "GuppyObject")
+        return state, ty, GO
+    # ---- update_packed_value: a value handed back by a borrowing call is re-armed (REG preserved)
+    e.func_info(UNP, "update_packed_value")
+    for shape in ("object", "tuple2", "struct1"):
+        def t_upd(it, shape=shape):
+            state, ty, GO = setup(it)
+            OU = it.lookup_global(e.module(OBJ), "ObjectUse")
+            upv = it.lookup_global(e.module(UNP), "update_packed_value")
+            v = it.call(GO, [ty, "WIRE"], {})
+            if it.ctx.branch(used0):
+                it.call_method(v, "_use_wire", [None])      # lent to the call
+            outs = ["OUT0", "OUT1"]
+            builder = SObj(ClassVal("Builder", builtin=True), {})
+            e.ext_models["hugr.ops.UnpackTuple"] = lambda it2, a, k: "UnpackTuple"
+            builder.fields["add_op"] = Builtin("add_op", lambda op, *w: SObj(ClassVal("Node", builtin=True), {"outputs": Builtin("outputs", lambda: iter(outs))}))
+            if shape == "object":
+                new = it.call(GO, [ty, "WIRE2"], {})
+                packed, want_wire = v, "WIRE2"
+            elif shape == "tuple2":
+                TT = it.lookup_global(e.module("guppylang_internals.tys.ty"), "TupleType")
+                other = it.call(GO, [ty, "WIRE_B"], {})
+                tty = it.call(TT, [[ty, ty]], {})
+                new = it.call(GO, [tty, "WIRE_T"], {})
+                packed, want_wire = (v, other), "OUT0"
+            else:
+                GS = it.lookup_global(e.module(OBJ), "GuppyStructObject")
+                fld = SObj(ClassVal("StructField", builtin=True), {"name": "q", "ty": ty})
+                sty = SObj(ClassVal("StructTy", builtin=True), {"fields": [fld], "copyable": SBool(cop), "droppable": SBool(dro)})
+                new = it.call(GO, [sty, "WIRE_S"], {})
+                del outs[1:]
+                packed, want_wire = SObj(GS, {"_ty": sty, "_field_values": {"q": v}, "_frozen": False}), "OUT0"
+            r = it.call(upv, [packed, new, builder], {})
+            return r, v, new, state, want_wire
+        paths = e.explore(t_upd)
+
+        def post_upd(p):
+            if p.kind != "return":
+                return z3.BoolVal(False)
+            r, v, new, state, want_wire = p.value
+            reg = state.fields["unused_undroppable_objs"]
+            v_reg = any(x is v for x in reg.values())
+            new_reg = any(x is new for x in reg.values())
+            conc = r is True and v.fields["_wire"] == want_wire and v.fields["_used"] is None and new.fields["_used"] is not None and not new_reg
+            return z3.And(z3.BoolVal(conc), z3.BoolVal(v_reg) == z3.Not(dro))
+        chk.prove_paths(f"{tag}update_packed_value[{shape}]:handed-back-value-gets-the-new-wire/\\is-unused-again/\\registered-as-unused<=>not-droppable/\\the-carrier-is-consumed", paths, post_upd,
+                        func=f"{UNP}:update_packed_value", replay=lambda m: {"script": REPLAY_LEAK, "input": {"program": PROG_LEAK_AFTER_BORROW}})
+
+    chk.use_engine(e)
+
+
 def run(chk):
     e = mk_engine(chk)
     for q in ("GuppyObject.__init__", "GuppyObject._use_wire", "GuppyStructObject.__init__", "GuppyStructObject.__setattr__"):
@@ -123,51 +190,7 @@ def run(chk):
     chk.prove_paths("GuppyObject._use_wire:first-use-ok/\\marks-used/\\deregisters;second-use-raises<=>not-copyable", paths, post_use,
                     func=f"{OBJ}:GuppyObject._use_wire", replay=lambda m: {"script": REPLAY, "input": {"program": PROG_REUSE}})
 
-    # ---- update_packed_value: a value handed back by a borrowing call is re-armed (REG preserved)
-    e.func_info(UNP, "update_packed_value")
-    for shape in ("object", "tuple2", "struct1"):
-        def t_upd(it, shape=shape):
-            state, ty, GO = setup(it)
-            OU = it.lookup_global(e.module(OBJ), "ObjectUse")
-            upv = it.lookup_global(e.module(UNP), "update_packed_value")
-            v = it.call(GO, [ty, "WIRE"], {})
-            if it.ctx.branch(used0):
-                it.call_method(v, "_use_wire", [None])      # lent to the call
-            outs = ["OUT0", "OUT1"]
-            builder = SObj(ClassVal("Builder", builtin=True), {})
-            e.ext_models["hugr.ops.UnpackTuple"] = lambda it2, a, k: "UnpackTuple"
-            builder.fields["add_op"] = Builtin("add_op", lambda op, *w: SObj(ClassVal("Node", builtin=True), {"outputs": Builtin("outputs", lambda: iter(outs))}))
-            if shape == "object":
-                new = it.call(GO, [ty, "WIRE2"], {})
-                packed, want_wire = v, "WIRE2"
-            elif shape == "tuple2":
-                TT = it.lookup_global(e.module("guppylang_internals.tys.ty"), "TupleType")
-                other = it.call(GO, [ty, "WIRE_B"], {})
-                tty = it.call(TT, [[ty, ty]], {})
-                new = it.call(GO, [tty, "WIRE_T"], {})
-                packed, want_wire = (v, other), "OUT0"
-            else:
-                GS = it.lookup_global(e.module(OBJ), "GuppyStructObject")
-                fld = SObj(ClassVal("StructField", builtin=True), {"name": "q", "ty": ty})
-                sty = SObj(ClassVal("StructTy", builtin=True), {"fields": [fld], "copyable": SBool(cop), "droppable": SBool(dro)})
-                new = it.call(GO, [sty, "WIRE_S"], {})
-                del outs[1:]
-                packed, want_wire = SObj(GS, {"_ty": sty, "_field_values": {"q": v}, "_frozen": False}), "OUT0"
-            r = it.call(upv, [packed, new, builder], {})
-            return r, v, new, state, want_wire
-        paths = e.explore(t_upd)
-
-        def post_upd(p):
-            if p.kind != "return":
-                return z3.BoolVal(False)
-            r, v, new, state, want_wire = p.value
-            reg = state.fields["unused_undroppable_objs"]
-            v_reg = any(x is v for x in reg.values())
-            new_reg = any(x is new for x in reg.values())
-            conc = r is True and v.fields["_wire"] == want_wire and v.fields["_used"] is None and new.fields["_used"] is not None and not new_reg
-            return z3.And(z3.BoolVal(conc), z3.BoolVal(v_reg) == z3.Not(dro))
-        chk.prove_paths(f"update_packed_value[{shape}]:handed-back-value-gets-the-new-wire/\\is-unused-again/\\registered-as-unused<=>not-droppable/\\the-carrier-is-consumed", paths, post_upd,
-                        func=f"{UNP}:update_packed_value", replay=lambda m: {"script": REPLAY_LEAK, "input": {"program": PROG_LEAK_AFTER_BORROW}})
+    upv_obligations(chk)
 
     # ---- leak check at the end of trace_function + frozen flag for owned inputs (structural on the real AST)
     fm = e.module(FN)
